@@ -85,6 +85,11 @@ class FPCoreRef:
             c = self.make_context('ieee', _IEEE[prec], _ROUND[rnd])
         elif isinstance(prec, list) and len(prec) == 3 and prec[0] == 'float':
             c = self.make_context('ieee', (int(prec[1]), int(prec[2])), _ROUND[rnd])
+        elif isinstance(prec, list) and len(prec) == 3 and prec[0] == 'fixed':
+            # (fixed scale nbits): two's-complement integers of nbits bits scaled by 2^scale
+            if int(prec[2]) < 1:
+                raise Stuck('precision (fixed %s %s): a format of %s bits' % (prec[1], prec[2], prec[2]))
+            c = self.make_context('fixed', (int(prec[1]), int(prec[2])), _ROUND[rnd])
         else:
             raise Unsupported('precision %r' % (prec,))
         self._ctx_cache[key] = c
